@@ -19,7 +19,7 @@ RULE = ('three Hypothesis sub-checks.  bases: abscissae in [-1,1] (arrays of 1-6
         'matters, default grid spans xmin..xmax in unit steps.  Non-trivial = ncoeff >= 3 with a zero weight and (fits) a fixed parameter '
         'or (trace sets) >= 2 traces with a jump.')
 ASSUMPTIONS = ['design matrices have condition number < 1e6 (decided on the reference side; otherwise only shapes/finite-ness are asserted)',
-               'at least ncoeff+2 positively weighted points',
+               'at least max(ncoeff, 2) positively weighted points (exactly ncoeff is generated on purpose; a single good point is the constant special case inherited from IDL)',
                'basis tolerance 1e-10 (1+k^2) for float64 and 3e-5 (1+k^2) for float32 input',
                'fit tolerance 1e-7 relative to the coefficient scale (normal equations, cond < 1e6 -> asserted at 1e-12*cond^2 + 1e-9)']
 
@@ -81,7 +81,7 @@ def basis_body(case):
 def fit_case(draw):
     n = draw(st.integers(8, 80))
     nc = draw(st.sampled_from([4, 3, 5, 2, 6, 8, 1, 7]))
-    n = max(n, nc + 4)
+    n = max(n, nc + 1)
     fn = draw(st.sampled_from(['legendre', 'chebyshev', 'poly', 'chebyshev_split', 'flegendre', 'fchebyshev', 'fpoly']))
     if 'split' in fn and nc < 2:
         nc = 2
@@ -90,8 +90,10 @@ def fit_case(draw):
     x = [v / max(1.0, abs(x[-1]), abs(x[0])) for v in x]
     if draw(st.booleans()):
         x = list(draw(st.permutations(x)))
-    nz = draw(st.integers(0, max(0, n - nc - 2)))
-    zeros = draw(st.lists(st.integers(0, n - 1), min_size=min(nz, 1), max_size=nz, unique=True)) if nz else []
+    # "enough good points" = at least ncoeff of them; exactly ncoeff (an interpolating fit) is drawn on purpose
+    nz = draw(st.sampled_from([n - nc, n - nc - 1, 0, draw(st.integers(0, max(0, n - nc)))]))
+    nz = max(0, min(nz, n - 2))      # a single good point is func_fit's constant special case (inherited from IDL), not a fit
+    zeros = draw(st.lists(st.integers(0, n - 1), min_size=nz, max_size=nz, unique=True)) if nz else []
     use_ia = draw(st.sampled_from([True, True, False]))
     nfix = draw(st.integers(0, nc - 1)) if use_ia else 0
     fixed = draw(st.lists(st.integers(0, nc - 1), min_size=nfix, max_size=nfix, unique=True))
@@ -172,6 +174,8 @@ def fit_classify(case):
     out = ['fn:' + case['fn'], 'nc:%d' % case['nc'], 'y:' + case['ykind']]
     if case['zeros']:
         out.append('zero-weights')
+    if case['n'] - len(case['zeros']) == case['nc']:
+        out.append('ngood==ncoeff')
     if case['use_ia'] and case['fixed']:
         out.append('fixed-params')
     if case['inputfunc']:
@@ -206,8 +210,9 @@ def tset_case(draw):
     jump = draw(st.sampled_from([False, True, True]))
     jp = None
     if jump:
-        lo = x0 + nx * (0.3 + 0.1 * draw(uf))
-        jp = dict(xjumplo=lo, xjumphi=lo + draw(st.sampled_from([1.0, 3.5, 10.0])), xjumpval=draw(st.sampled_from([0.5, -1.25, 3.0, 0.0])))
+        lo = draw(st.sampled_from([x0 + nx * (0.3 + 0.1 * draw(uf)), x0, 0.0, x0 + 5.0, x0 - 3.0]))
+        hi = lo + draw(st.sampled_from([1.0, 3.5, 10.0, 3.0]))
+        jp = dict(xjumplo=lo, xjumphi=hi, xjumpval=draw(st.sampled_from([0.5, -1.25, 3.0, 0.0])))
     return dict(ntr=ntr, nx=nx, nc=nc, func=func, xkind=xkind, rows=rows, coeff=coeff, jump=jp, ykind=draw(st.sampled_from(['exact', 'noisy'])),
                 xminmax=draw(st.sampled_from([None, None, 'wider'])), zeros=draw(st.lists(st.integers(0, ntr * nx - 1), max_size=5, unique=True)),
                 noise=[draw(uf) for _ in range(8)])
